@@ -328,6 +328,7 @@ def mutants(mb):
     mb.add_text("literal-lookup-raw-key", M, "            return self.value_map[isinstance(data, bool), data]", "            return self.value_map[False, data]", "C01.R9", "LiteralMethod")
     mb.add_text("literal-table-raw-key", "apischema/deserialization/__init__.py", "                {(isinstance(key, bool), key): value for key, value in zip(keys, values)},", "                {(False, key): value for key, value in zip(keys, values)},", "C01.R9", "table")
     mb.add_text("to-hashable-bool-untagged", M, "    elif isinstance(data, bool):  # True == 1 for Python, they are distinct for JSON\n        return bool, data\n", "", "C01.R9", "to_hashable")
+    mb.add_text("all-aliases-with-aggregates", "apischema/deserialization/__init__.py", "            all_alliases = {field.alias for field in normal_fields}\n", "            all_alliases = set(alias_by_name.values())\n", "C01.R8", "all_aliases")
     mb.add_text("neg-guard-clause-form", M, "                    for key in remain:\n                        if key != discriminator:\n                            field_errors = set_child_error(\n                                field_errors, key, ValidationError(self.unexpected)\n                            )", "                    for key in remain:\n                        if key == discriminator:\n                            continue\n                        field_errors = set_child_error(\n                            field_errors, key, ValidationError(self.unexpected)\n                        )", negative=True)
     mb.add_text("neg-else-branch-form", M, "        elif len(data) != fields_count:\n            if not self.additional_properties:", "        elif not (len(data) == fields_count):\n            if not self.additional_properties:", negative=True)
     mb.add_text("neg-operand-order", M, "        return data >= self.minimum", "        return self.minimum <= data", negative=True)
